@@ -168,11 +168,14 @@ Lemma tab_remove_found t k a : snd (tab_remove t k a) = lmem a (look t k).
 Proof. unfold tab_remove. now destruct (lmem a (look t k)). Qed.
 
 (* ---------------------------------------------------------------- first occurrences *)
+Lemma lmem_cons x a l : lmem x (a :: l) = lid_eqb x a || lmem x l.
+Proof. reflexivity. Qed.
+
 Lemma first_occ_ext l : forall s1 s2, (forall x, lmem x s1 = lmem x s2) -> first_occ l s1 = first_occ l s2.
 Proof.
-  induction l as [|a l IH]; intros s1 s2 H; cbn; [reflexivity|].
+  induction l as [|a l IH]; intros s1 s2 H; cbn [first_occ]; [reflexivity|].
   rewrite (H a). destruct (lmem a s2); [now apply IH|]. f_equal. apply IH.
-  intro x. cbn. now rewrite H.
+  intro x. rewrite !lmem_cons. now rewrite H.
 Qed.
 
 (* elements that satisfy p, each at its first occurrence, unless already seen *)
@@ -182,11 +185,11 @@ Proof.
   induction l as [|a l IH]; intro seen; cbn [filter]; [reflexivity|].
   destruct (p a) eqn:Ep; cbn [andb].
   - destruct (lid_eqb_spec b a) as [<-|Hba]; cbn [negb].
-    + cbn [first_occ lmem existsb]. rewrite lid_eqb_refl. cbn [orb]. apply IH.
-    + cbn [first_occ]. cbn [lmem existsb]. fold (lmem a seen).
+    + cbn [first_occ]. rewrite lmem_cons, lid_eqb_refl. cbn [orb]. apply IH.
+    + cbn [first_occ]. rewrite lmem_cons.
       destruct (lid_eqb_spec a b); [congruence|]. cbn [orb].
       destruct (lmem a seen); [apply IH|]. f_equal.
-      rewrite IH. apply first_occ_ext. intro x. cbn.
+      rewrite IH. apply first_occ_ext. intro x. rewrite !lmem_cons.
       destruct (lid_eqb x b), (lid_eqb x a); reflexivity.
   - apply IH.
 Qed.
@@ -196,7 +199,7 @@ Proof.
   induction l as [|a l IH]; intros seen x; cbn [first_occ]; [cbn; tauto|].
   destruct (lmem a seen) eqn:E.
   - rewrite IH. cbn [In]. split; [tauto|]. intros [[<-|H] Hs]; [congruence|tauto].
-  - cbn [In]. rewrite IH. cbn [lmem existsb]. fold (lmem x seen).
+  - cbn [In]. rewrite IH. rewrite lmem_cons.
     destruct (lid_eqb_spec x a) as [->|Hxa]; cbn [orb].
     + split; [intros [_|[_ H]]; [tauto|discriminate] | tauto].
     + split; [intros [H|H]; [congruence|tauto] | intros [[H|H] Hs]; [congruence|tauto]].
@@ -206,7 +209,7 @@ Lemma first_occ_nodup l : forall seen, NoDup (first_occ l seen).
 Proof.
   induction l as [|a l IH]; intro seen; cbn [first_occ]; [constructor|].
   destruct (lmem a seen); [apply IH|]. constructor; [|apply IH].
-  rewrite first_occ_in. cbn. rewrite lid_eqb_refl. cbn. intros [_ H]. discriminate.
+  rewrite first_occ_in. rewrite lmem_cons, lid_eqb_refl. cbn. intros [_ H]. discriminate.
 Qed.
 
 Lemma by_last_in l x : In x (by_last l) <-> In x l.
@@ -250,4 +253,17 @@ Proof.
   rewrite orb_false_iff, IH. split.
   - intros [H1 H2] x [<-|Hx]; auto.
   - intro H. split; [apply H; now left | intros x Hx; apply H; now right].
+Qed.
+
+Lemma flat_map_ext_in' {A B} (f g : A -> list B) l :
+  (forall x, In x l -> f x = g x) -> flat_map f l = flat_map g l.
+Proof.
+  induction l as [|a l IH]; cbn; intro H; [reflexivity|].
+  rewrite (H a) by now left. f_equal. apply IH. intros x Hx. apply H. now right.
+Qed.
+
+Lemma filter_map_comm {A B} (f : A -> B) (p : B -> bool) l :
+  filter p (map f l) = map f (filter (fun x => p (f x)) l).
+Proof.
+  induction l as [|a l IH]; cbn; [reflexivity|]. destruct (p (f a)); cbn; now rewrite IH.
 Qed.
